@@ -15,7 +15,7 @@ LEVEL_TEXT = (
     'the predecessor at the index of the acting actor; no-op elision is restricted to non-ordered '
     'networks. User handlers and value-level equality of successors are not decided.')
 
-FLOORS = {'C06-R1': 12, 'C06-R2': 4, 'C06-R3': 8, 'C06-R4': 10, 'C06-R5': 4, 'C06-R6': 13, 'C07-R3': 6}
+FLOORS = {'C06-R1': 12, 'C06-R2': 4, 'C06-R3': 8, 'C06-R4': 10, 'C06-R5': 6, 'C06-R6': 13, 'C07-R3': 6}
 
 
 def r1_table(ctx, F):
@@ -377,6 +377,30 @@ def r5_noop(ctx, F):
               good='a no-op delivery is elided only when the initial network is not Ordered',
               bad='next_state: a no-op delivery is elided (returns None) without testing that the network '
                   'is not Ordered: on an ordered network the head of the flow then blocks the flow forever')
+    # the other handler arms: a fired timer may be elided only when the handler did nothing but re-arm that same
+    # timer (is_no_op_with_timer); a selected random choice is always consumed - selecting an alternative whose
+    # handler does nothing still removes the choice, otherwise the alternatives stay selectable for ever
+    for v_, helper in (('Timeout', 'actor::is_no_op_with_timer'), ('SelectRandom', None)):
+        if v_ not in ns.variants:
+            continue
+        hcalls = ns.calls_in(v_, HANDLERS[v_])
+        if len(hcalls) != 1:
+            raise AnchorMissing('next_state %s arm: handler call' % v_)
+        arm_blocks_, arm_edges_ = ns.arm(v_)
+        after_h = b.reach([hcalls[0].target] if hcalls[0].target is not None else [])
+        late_nones = [i for (i, st_) in ns.none_returns(v_) if i in after_h]
+        allowed_e = []
+        if helper:
+            for c_ in ns.calls_in(v_, helper):
+                allowed_e += b.branch(c_, True)
+        okv = all(allowed_e and b.edges_dominate(allowed_e, i) for i in late_nones)
+        ctx.check(okv, rule, 'elision-in-%s' % v_, b,
+                  good='after the %s handler ran, the step is dropped only %s' %
+                       (v_, 'when is_no_op_with_timer holds' if helper else 'never'),
+                  bad='next_state: the %s arm can return None after its handler ran%s: the %s is not consumed although '
+                      'the action was taken, so the same action stays enabled (and the alternatives of a random choice '
+                      'stay selectable)' % (v_, '' if not helper else ' without is_no_op_with_timer having returned true',
+                                            'timer' if helper else 'selected choice'))
     # on the Ordered path the message is still consumed
     dl = ns.calls_in('Deliver', 'Network::on_deliver')
     ctx.check(len(dl) == 1, rule, 'noop-ordered-still-consumes', b,
